@@ -53,7 +53,7 @@ int main() {
 			auto r = vh::run_isolated([&] { return runOp(c); }, int(c.geti("cpu", 20)), 120, normalExit);
 			if (r.kind == "ok" && !r.out.empty()) { out = r.out; out.pop_back(); out += ",\"cpu_ms\":" + std::to_string(r.cpu_ms) + "}"; }
 			else {
-				vh::JObj j; j.str("id", c.get("id")).str("out", "died").str("death", vh::classify_death(r)).str("kind", r.kind).num("code", r.code).num("cpu_ms", r.cpu_ms).str("stderr", r.err.size() > 2500 ? r.err.substr(0, 2500) : r.err);
+				vh::JObj j; j.str("id", c.get("id")).str("out", "died").str("death", vh::classify_death(r)).str("kind", r.kind).num("code", r.code).num("cpu_ms", r.cpu_ms).str("stderr", r.err);
 				if (!r.out.empty()) j.str("partial", r.out.substr(0, 300));
 				out = j.done();
 			}
